@@ -59,6 +59,22 @@ CHECKS = {
                   "executions validated by TLC (trace validation)",
         ref="DESIGN.md section 4 C07, section 3.3",
     ),
+    "C14": dict(
+        text="BruteForce.tla / Grid.tla: property-level machines over a program given as its set of leaf paths "
+             "(Optimize/StartTrial/Suggest/Finish/Abort/Return), with NoDuplicateLeaf, AllLeavesVisitedAtStop and "
+             "termination (liveness) model-checked for all trees of depth<=3 x branching<=2 (and depth 2 x branching 3), all "
+             "failure/prune patterns and all splits of the run; algorithm-level models of the _TreeNode bookkeeping and of the "
+             "grid_id / after_trial stop rule are checked against them (the two recorded defects are reachable there). About "
+             "2800 scenarios per run (all 183 depth-3 tree shapes with random parameter kinds, random larger trees, grids, "
+             "1-3 optimize calls, same/fresh sampler, three storages) are executed with the real samplers and every recorded "
+             "run is validated by TLC: each evaluated combination is a leaf, none twice, optimize stopped by itself exactly "
+             "when everything was visited.",
+        note="Trusted: TLC, the scripted objective that turns a tree into suggest calls. Mid-trial failures (between two "
+             "suggests) and resume-with-another-seed are separate families with known findings K3, K3b, K8.",
+        technique="TLA+ property- and algorithm-level specs model-checked with TLC (safety + liveness); real sampler runs "
+                  "validated by TLC (trace validation)",
+        ref="DESIGN.md section 4 C14, section 3.8",
+    ),
     "C15": dict(
         text="TLC decides every answer of the real kernels: hypervolume = number of dominated lattice cells, rank = "
              "peeling (plain/constrained, n_below contract), HSSP answer within (1-1/e) of the exhaustive best subset. "
